@@ -8,7 +8,7 @@ PROP = {'title': 'SHA-256 and HMAC-SHA256 match the standards for every input',
                '55/56/64-byte padding edges and keys longer than one block are generated on purpose. Exploration is the right level: the property is '
                'a pure input/output equality against a standard.',
  'level_note': 'Trusted base: OpenSSL 3 EVP SHA-256/HMAC (self-checked against FIPS 180-4 / RFC 4231 vectors each run). A hasher object is never '
-               'reused after finalize (not claimed by the property).',
+               'reused after finalize (not claimed by the property). Second compiler: the same tapes also run against a g++ -O2 ASan/UBSan build of the code under test (engine \'tape-rc (second compiler…)\'), because the two compilers instrument and optimise undefined behaviour differently (e.g. abs(INT64_MIN) is only reported by g++\'s UBSan, and clang can fold such UB into a correct-looking result); failing tapes of that engine are kept as *.gcc.tape and replayed with that build.',
  'assumptions': ['OpenSSL libcrypto is a correct SHA-256/HMAC-SHA256 reference', 'hasher objects are not reused after finalize()'],
- 'tiers': {'quick': [('rc', {'cases': 20000, 'workers': 1})],
-           'thorough': [('rc', {'cases': 60000, 'workers': 16}), ('fuzz', {'secs': 120, 'workers': 4, 'max_len': 268})]}}
+ 'tiers': {'quick': [('rc', {'cases': 20000, 'workers': 1}), rc(20000, suffix='_gcc')],
+           'thorough': [('rc', {'cases': 60000, 'workers': 16}), ('fuzz', {'secs': 120, 'workers': 4, 'max_len': 268}), rc(60000, 4, suffix='_gcc')]}}
